@@ -155,6 +155,10 @@ type vfWorld struct {
 	stopOnViolation bool
 	loginAttempts   []time.Time
 
+	tampered      bool
+	recInfo       map[string]*vfRecInfo
+	lastRecord    map[string]string
+	replayed      map[string]bool
 	conc          *concOutcome
 	attempts      []vfAttempt
 	totpAcceptAt  map[string]time.Time
